@@ -30,6 +30,7 @@ type Node struct {
 	L    []*Node          // list
 	S    string           // scalar text
 	Lang [][2]string      // lang: sorted (tag, text)
+	Ord  string           // lang: the tags in the order the value holds them (not part of Equal/Diff; see OrderDiff)
 	V    bool             // obj: embedded by value in an interface (informational; not part of equality, N2)
 }
 
@@ -98,6 +99,9 @@ func of(v reflect.Value, m Mode, single bool) *Node {
 		}
 		if m == JSON && len(nd.Lang) == 1 {
 			nd.Lang[0][0] = "-" // N5
+		}
+		for _, e := range nd.Lang {
+			nd.Ord += e[0] + "\x00"
 		}
 		sort.Slice(nd.Lang, func(i, j int) bool {
 			if nd.Lang[i][0] != nd.Lang[j][0] {
@@ -457,3 +461,63 @@ func Depth(p string) int {
 
 // StripIndices removes "[]" markers from a path for finding keys that should not depend on list position.
 func StripIndices(p string) string { return strings.ReplaceAll(p, "[]", "") }
+
+// OrderDiff compares the ORDER of the entries of every language list of two trees that are Equal: a language list is an ordered
+// map (C19), and a codec that hands the same entries back in another order has changed the value (First(), String(), the member
+// order of the written map). It returns "" or the path of the first list whose order differs.
+func OrderDiff(a, b *Node) string {
+	return orderDiff(a, b, "")
+}
+
+func orderDiff(a, b *Node, path string) string {
+	if a == nil || b == nil || a.K != b.K {
+		return ""
+	}
+	switch a.K {
+	case "lang":
+		if a.Ord != b.Ord && len(a.Lang) == len(b.Lang) {
+			return path
+		}
+	case "obj":
+		keys := make([]string, 0, len(a.F))
+		for k := range a.F {
+			keys = append(keys, k)
+		}
+		sort.Strings(keys)
+		for _, k := range keys {
+			if d := orderDiff(a.F[k], b.F[k], path+"."+k); d != "" {
+				return d
+			}
+		}
+	case "list":
+		for i := range a.L {
+			if i < len(b.L) {
+				if d := orderDiff(a.L[i], b.L[i], fmt.Sprintf("%s[%d]", path, i)); d != "" {
+					return d
+				}
+			}
+		}
+	}
+	return ""
+}
+
+// HasMultiLang reports whether the tree holds a language list of two or more entries.
+func HasMultiLang(n *Node) bool {
+	if n == nil {
+		return false
+	}
+	if n.K == "lang" {
+		return len(n.Lang) > 1
+	}
+	for _, f := range n.F {
+		if HasMultiLang(f) {
+			return true
+		}
+	}
+	for _, e := range n.L {
+		if HasMultiLang(e) {
+			return true
+		}
+	}
+	return false
+}
